@@ -27,6 +27,12 @@ pub struct RunInfo {
     pub define_hit_existing: u64,
     pub enum_elements_checked: u64,
     pub nonroot_args: u64,
+    /// C17: the run met a condition one of the known findings covers (late structure, a derived
+    /// structural merge, or deviating index copies); a run without it is judged in full
+    pub c17_masked: bool,
+    /// C17: inherited tuples whose member-typed components were replaced by images (rows of the
+    /// codomain that differ from every row of the domain in a member-typed column)
+    pub c17_mapped_rows: u64,
 }
 
 fn all_pairs_equal_check(prog: &Prog, m: &dyn DynModel, cur: &Structure) -> Result<(), Fail> {
